@@ -891,7 +891,7 @@ theorem token_inv {s r : Src} {k : Kind} (h : token s = some (k, r)) :
     (∃ cs, k = .lineWrap cs) ∨ (k = .newLine ∧ newline s = some r) ∨
     (∃ e ∈ multiCharOps, k = .op e.2.1 ∧ s = e.1 ++ r) ∨ (∃ c v, k = .interpolation c v) ∨ (∃ v, k = .param v) ∨
     (∃ l, k = .literal l) ∨ (k = .annotate ∧ s = '@' :: r) ∨ (∃ c, k = .control c ∧ s = c :: r ∧ c ∈ controlChars) ∨
-    (∃ v, k = .keyword v) ∨ (∃ v, k = .ident v) ∨ (∃ v, k = .comment v) ∨ (∃ v, k = .docComment v) := by
+    (∃ v, k = .keyword v) ∨ (∃ v, k = .ident v) ∨ (∃ c, k = commentKind c ∧ comment s = some (c, r)) := by
   unfold token at h
   rcases orElse_some h with h | ⟨_, h⟩
   · unfold lineWrap at h
@@ -956,11 +956,8 @@ theorem token_inv {s r : Src} {k : Kind} (h : token s = some (k, r)) :
     · cases h
   · unfold commentTok at h; split at h
     · next c r' hc =>
-      simp at h
-      unfold commentKind at h
-      split at h
-      · exact .inr (.inr (.inr (.inr (.inr (.inr (.inr (.inr (.inr (.inr (.inr ⟨_, h.1.symm⟩))))))))))
-      · exact .inr (.inr (.inr (.inr (.inr (.inr (.inr (.inr (.inr (.inr (.inl ⟨_, h.1.symm⟩))))))))))
+      simp at h; obtain ⟨rfl, rfl⟩ := h
+      exact .inr (.inr (.inr (.inr (.inr (.inr (.inr (.inr (.inr (.inr ⟨c, rfl, hc⟩)))))))))
     · cases h
 
 /-- a token of `lexToken` that is not a range comes from `token()` on the input after the skipped whitespace -/
@@ -984,6 +981,79 @@ theorem lex_single {body : Src} {k : Kind} (h : lexToken body = some (⟨k, body
   rw [hn]
   simp [repeatF, h, h0, skipWs, mkToken, utf8Len]
 
+
+/-! ### comments re-lex -/
+
+theorem multiCharOp_hash (rest : Src) : multiCharOp multiCharOps ('#' :: rest) = none := by
+  simp [multiCharOp, multiCharOps, stripPrefix]
+
+theorem literal_hash (rest : Src) : literal ('#' :: rest) = none := by
+  simp [literal, orElse, radixNumber, stripPrefix, binPrefix, hexPrefix, octPrefix, string, quotedString, multiQuoted,
+    rawString, valueAndUnit, parseInteger, number, boolean, null, firstPrefix, booleanLits, nullLit, isDigit]
+
+theorem token_hash (rest : Src) : token ('#' :: rest) = commentTok ('#' :: rest) := by
+  have h1 : lineWrap ('#' :: rest) = none := by simp [lineWrap, newline]
+  have h2 : newlineTok ('#' :: rest) = none := by simp [newlineTok, newline]
+  have h4 : interpolation ('#' :: rest) = none := by simp [interpolation, interpolationPrefixes]
+  have h5 : param ('#' :: rest) = none := by simp [param]
+  have h6 : dateToken ('#' :: rest) = none := by simp [dateToken]
+  have h7 : annotate ('#' :: rest) = none := by simp [annotate]
+  have h8 : Model.Lex.control ('#' :: rest) = none := by simp [Model.Lex.control, controlChars]
+  have h9 : literalTok ('#' :: rest) = none := by simp [literalTok, literal_hash]
+  have h10 : keyword ('#' :: rest) = none := by simp [keyword, firstPrefix, keywords, stripPrefix]
+  have h11 : identTok ('#' :: rest) = none := by
+    have : isIdentStart '#' = false := by decide
+    simp [identTok, identPart, this]
+  simp [token, orElse, h1, h2, multiCharOp_hash, h4, h5, h6, h7, h8, h9, h10, h11]
+
+theorem takeWhile_idem (p : Char → Bool) (x : Src) : (x.takeWhile p).takeWhile p = x.takeWhile p := by
+  induction x with
+  | nil => rfl
+  | cons c r ih => simp only [List.takeWhile]; cases h : p c <;> simp [List.takeWhile, h, ih]
+
+theorem dropWhile_takeWhile (p : Char → Bool) (x : Src) : (x.takeWhile p).dropWhile p = [] := by
+  induction x with
+  | nil => rfl
+  | cons c r ih => simp only [List.takeWhile]; cases h : p c <;> simp [List.dropWhile, h, ih]
+
+theorem body_of_dropWhile {p : Char → Bool} {body x pre : Src} (h : body ++ x.dropWhile p = pre ++ x) :
+    body = pre ++ x.takeWhile p := by
+  have : pre ++ x = (pre ++ x.takeWhile p) ++ x.dropWhile p := by simp [List.takeWhile_append_dropWhile]
+  rw [this] at h
+  exact List.append_cancel_right h
+
+/-- a comment token's text, alone, is that comment token -/
+theorem comment_alone {body r : Src} {c : Bool × Src} (h : comment (body ++ r) = some (c, r)) :
+    lexToken body = some (⟨commentKind c, body, []⟩, []) := by
+  have key : ∃ x, body = '#' :: x ∧ comment body = some (c, []) := by
+    unfold comment at h
+    split at h
+    · next x heq =>
+      simp at h; obtain ⟨rfl, rfl⟩ := h
+      have hb := body_of_dropWhile (pre := ['#', '!']) (by simpa using heq)
+      subst hb
+      exact ⟨_, rfl, by simp [comment, takeWhile_idem, dropWhile_takeWhile]⟩
+    · next x hnd heq =>
+      simp at h; obtain ⟨rfl, rfl⟩ := h
+      have hb := body_of_dropWhile (pre := ['#']) (by simpa using heq)
+      subst hb
+      refine ⟨_, rfl, ?_⟩
+      have hx : ∀ y, x.takeWhile notCommentStop ≠ '!' :: y := by
+        intro y hy
+        have := List.takeWhile_append_dropWhile (p := notCommentStop) (l := x)
+        rw [hy] at this
+        exact hnd _ (by rw [← this]; rfl)
+      simp only [List.cons_append, List.nil_append]
+      unfold comment
+      split
+      · next r0 heq2 => simp at heq2; exact absurd heq2 (hx _)
+      · next r0 _ heq2 => simp at heq2; subst heq2; simp [takeWhile_idem, dropWhile_takeWhile]
+      · next h3 => exact absurd rfl (h3 _)
+    · cases h
+  obtain ⟨x, rfl, hc⟩ := key
+  have hws : skipWs ('#' :: x) = '#' :: x := by simp [skipWs, List.dropWhile, isInlineWs, inlineWhitespace]
+  unfold lexToken
+  simp [hws, stripPrefix, rangeStr, token_hash, commentTok, hc]
 
 theorem cancel1 {body r : Src} {c : Char} (h : body ++ r = c :: r) : body = [c] :=
   List.append_cancel_right (as := body) (bs := r) (cs := [c]) (by simpa using h)
